@@ -189,10 +189,10 @@ def pytorch_stft_frame_computer(
     total_len = (num_frames - 1) * frame_shift - pad_left + frame_length
     pad_right = max(0, total_len - sig_len)
     if pad_left or pad_right:
-        # symmetric padding
-        sig = torch.cat(
-            [sig[:pad_left].flip(0), sig, sig[sig_len - pad_right :].flip(0)]
-        )
+        # symmetric padding (repeated when a pad is longer than the signal itself)
+        idx = torch.arange(-pad_left, sig_len + pad_right, device=sig.device)
+        idx = idx % (2 * sig_len)
+        sig = sig[torch.where(idx < sig_len, idx, 2 * sig_len - 1 - idx)]
     sig = sig.as_strided((num_frames, frame_length), (frame_shift, 1))
     y: List[torch.Tensor] = []
     if include_energy:
